@@ -446,14 +446,15 @@ CHECKS = {
               "(1 MiB in thorough); AAD length (c/5) mod 81 on every fifth case else boundary-biased up to 2 KiB; tag 8/12/16; random data/AAD/IV/tag alignment 0..63, "
               "key-data at 16-byte residues; in-place or out-of-place; _nt variants with 64-byte aligned disjoint buffers; each case runs enc and dec for both key sizes "
               "on the family symbols and on the isal_/legacy API forced onto the family; one message of 2^29+17 bytes per family and key size (bit length beyond 32 bits; thorough also 2^31+5 and 2^32+33 bytes), "
-              "encrypted one-shot in place and decrypted streamed, against OpenSSL; AAD of 2^29+33 bytes (bit length beyond 32 bits) on every family and of 2^32+4113 bytes on vaes_avx512 "
+              "encrypted one-shot in place and decrypted streamed, against OpenSSL; one call of 2^32+289 bytes per family (byte length beyond 32 bits, 16..31-block tail) through a periodic memfd mirror; AAD of 2^29+33 and exactly 2^32 bytes on every family and of 2^32+4113 bytes on vaes_avx512 "
               "(thorough: both on every family and key size), one-shot and init/update/finalize, against OpenSSL; a quarter of the cases have their buffers around a 4 GiB-aligned address; "
               "distinct_nontrivial = distinct (family, key size, direction, nt, in-place, route, "
               "length class, AAD length class, tag length)"),
         assumptions=AES_TRUST,
         tasks=lambda tier: aes_tasks("C02", "gcm", GCM_FAMS, 1500, 60000)(tier)
         + [dict(engine="aesdiff", variant="plain", timeout=3000, args=["--prop", "C02", "--what", "gcmhuge", "--fam", fam, "--from", 0, "--count", 1, "--watchdog", 2900]) for fam in GCM_FAMS]
-        + [dict(engine="aesdiff", variant="plain", timeout=3000, args=["--prop", "C02", "--what", "gcmaadhuge", "--fam", fam, "--from", 0, "--count", 1, "--watchdog", 2900]) for fam in GCM_FAMS],
+        + [dict(engine="aesdiff", variant="plain", timeout=3000, args=["--prop", "C02", "--what", "gcmaadhuge", "--fam", fam, "--from", 0, "--count", 1, "--watchdog", 2900]) for fam in GCM_FAMS]
+        + [dict(engine="aesdiff", variant="plain", timeout=3000, args=["--prop", "C02", "--what", "gcmhuge2", "--fam", fam, "--from", 0, "--count", 1, "--watchdog", 2900]) for fam in GCM_FAMS],
     ),
     "C07": dict(
         technique='runtime differential oracle over update segmentations (carried-residue x piece-class coverage) vs the SP 800-38D reference',
